@@ -4,6 +4,7 @@ import Pcore.Model.DispatchCtors
 import Pcore.Model.CtorNew
 import Pcore.Model.CtorCoerce
 import Pcore.Model.CtorInit
+import Pcore.Model.CtorCanCoerce
 /-! Driver ops for C16:  `call <lt> <ds> <args> <blk>`, `newm <recv> <args>`, `coerce <ty> <v>`, `initinst <recv> <v>` and `initasg (init ty v*) <ty>` (syntax in harness/c16/c16.go).  The general
     `new` op is implementation-only. -/
 namespace C16
@@ -186,6 +187,13 @@ def exec : List Sexp → String
       | .ok b => boolStr b
       | .error c => "reported " ++ c
     | _, _, _ => "bad-op"
+  | [.atom "cancoerce", t, v] =>
+    match tyOf [] 0 t, valOf v with
+    | some ty, some x =>
+      match canCoerce (fun cs => Pcore.Syntax.parseFloat cs) ty x with
+      | .ok b => boolStr b
+      | .error c => "reported " ++ c
+    | _, _ => "bad-op"
   | [.atom "coerce", t, v] =>
     match tyOf [] 0 t, valOf v with
     | some ty, some x =>
